@@ -79,12 +79,14 @@ def run_cases(rep, cases, label, keyprefix):
         o = sc.validate_ops(opath, label)
         rep.add_tlc(o["tlc"], "operator-level trace of the replayed cycles (TraceOps.tla): %d events" % nops)
         rep.cov["operator_events_validated"] = rep.cov.get("operator_events_validated", 0) + nops
+        if o.get("drift"):
+            rep.cov.setdefault("operator_model_drift", []).append(o["drift"])
         if not o["accepted"]:
             d = sc.describe_rejection(o)
             ev = json.loads(d["rejected_event"]) if d["rejected_event"] else {}
             cfgk = next((c["cfg"] for c in cases if c["id"] == d["case"]), None)
             rep.violation("%s:ops:%s" % (keyprefix, ev.get("op", ev.get("e"))),
-                          "the real cycle does not execute the program of CycleOps.tla: event %s is not the expected instruction (case %s cfg=%s, line %s) context=%s"
+                          "the instructions the real cycle executed do not compute what TraceSem.tla requires at event %s (nor are they the program of CycleOps.tla) (case %s cfg=%s, line %s) context=%s"
                           % (d["rejected_event"], d["case"], json.dumps(cfgk, sort_keys=True), d["line"], json.dumps(d["context"])[:1200]),
                           replay={"trace": opath, "line": d["line"], "case": d["case"], "cfg": cfgk})
     rep.traces(len(byid))
